@@ -621,7 +621,7 @@ func runBatch() {
 			want = !isErr && only("sameSigner") && c.Entropy == "random"
 			num, den = 1, 8
 		case "C04": // S >= L at every position of every chunking, all four verifier modes
-			want = !isErr && nb > 0 && only("SplusL", "SplusLbad", "flipS", "wrongMsg", "smallA") && (kinds["SplusL"] || kinds["SplusLbad"])
+			want = !isErr && nb > 0 && only("SplusL", "SplusLbad", "flipS", "wrongMsg", "smallA", "truncSig", "nilKey", "smallR") && (kinds["SplusL"] || kinds["SplusLbad"])
 			num, den = 1, 8
 		case "C05": // ZIP-215 batches with small-order entries, alone and next to other failures
 			want = !isErr && c.Zip && (kinds["smallA"] || kinds["smallR"] || kinds["mixedA"] || kinds["mixedR"])
